@@ -116,7 +116,7 @@ def merge(prop, mod, tier, seed, cells, outs, problems, wall, partial=False):
     cellmap, fails, fail_counts, samples, counters, ratios = {}, {}, {}, [], {}, {}
     events, mon_evals, notes, herr = {}, {}, [], []
     cov = {}
-    max_ratio, max_at = 0.0, None
+    max_ratio, max_at, closest = 0.0, None, None
     done = skipped = 0
     for o in outs:
         ev += o["evaluations"]
@@ -135,6 +135,7 @@ def merge(prop, mod, tier, seed, cells, outs, problems, wall, partial=False):
             ratios[k] = max(ratios.get(k, 0.0), v)
         if o["max_ratio"] > max_ratio:
             max_ratio, max_at = o["max_ratio"], o["max_ratio_at"]
+            closest = o.get("closest")
         for k, v in o.get("events", {}).items():
             events[k] = events.get(k, 0) + v
         for mname, d in o.get("monitor_evaluations", {}).items():
@@ -218,6 +219,7 @@ def merge(prop, mod, tier, seed, cells, outs, problems, wall, partial=False):
             "counters": counters,
             "max_err_over_tol": max_ratio,
             "max_err_over_tol_at": max_at,
+            "closest_call": closest,
             "err_over_tol_by_check": dict(sorted(ratios.items(), key=lambda kv: -kv[1])[:40]),
             "known_findings_matched": {str(kid): ms for kid, (k, ms) in known_hit.items()},
             "violating_mechanisms": {m: fail_counts.get(m, 1) for m in viol},
